@@ -592,10 +592,16 @@ fn byte_key_set() -> Vec<Vec<u8>> {
 }
 
 fn c10_bytes<T: Kt>(dir: &std::path::Path, evals: &mut u64) -> Result<(), (String, String)> {
+    // once with every key in one chain (1 bucket: the stored-key comparison decides identity), once spread
+    c10_bytes_n::<T>(dir, 1, evals)?;
+    c10_bytes_n::<T>(dir, 8, evals)
+}
+
+fn c10_bytes_n<T: Kt>(dir: &std::path::Path, buckets: u64, evals: &mut u64) -> Result<(), (String, String)> {
     let kt = T::ID;
     clear_dir(dir);
     let keys = byte_key_set();
-    let (db, mut m) = match open_map::<T>(dir, MAP_NAME, &Params::buckets(8)) {
+    let (db, mut m) = match open_map::<T>(dir, MAP_NAME, &Params::buckets(buckets)) {
         Out::Ok(x) => x,
         o => return Err(("bytes:open".into(), format!("open {}", o.failed().unwrap_or_default()))),
     };
@@ -752,13 +758,13 @@ pub fn replay_generic(kind: u8, case: &[u8]) -> i32 {
 // ---------------------------------------------------------------------------------------------
 // C13: wrong key type / foreign signatures
 
-fn sample_image(kt: KtId, dir: &std::path::Path) -> Result<Image, String> {
+fn sample_image(kt: KtId, dir: &std::path::Path, empty: bool) -> Result<Image, String> {
     clear_dir(dir);
     let k = crate::alphabet::int_key(kt, 5);
     let r: Result<(), String> = crate::with_kt!(kt, T => {
         match open_map::<T>(dir, MAP_NAME, &Params::buckets(8)) {
             Out::Ok((db, mut m)) => {
-                let r = guard(|| m.put(&k[..], b"payload"));
+                let r = if empty { Out::Ok(()) } else { guard(|| m.put(&k[..], b"payload")) };
                 drop(m);
                 drop(db);
                 if r == Out::Ok(()) { Ok(()) } else { Err(format!("put {}", r.failed().unwrap_or_default())) }
@@ -812,7 +818,9 @@ fn try_open_as(kt: KtId, img: &Image, dir: &std::path::Path) -> Result<Option<St
 
 fn c13_job(payload: &[u8], io: &mut WorkerIo) -> Vec<u8> {
     let mut r = Rd::new(payload);
-    let mode = r.u8(); // 0 cross-type, 1 signature byte mutations
+    let mode_raw = r.u8(); // bit 0: 0 cross-type, 1 signature byte mutations; bit 1: maps that never held an entry
+    let mode = mode_raw & 1;
+    let empty = mode_raw & 2 != 0;
     let a = KtId::from_u8(r.u8());
     let only_file = r.u8(); // 255 all
     let only_byte = r.u32(); // u32::MAX all
@@ -821,7 +829,7 @@ fn c13_job(payload: &[u8], io: &mut WorkerIo) -> Vec<u8> {
     let work = scratch.fresh("w");
     let mut out = Buf::new();
     let mut evals = 0u64;
-    let img_a = match sample_image(a, &dir) {
+    let img_a = match sample_image(a, &dir, empty) {
         Ok(i) => i,
         Err(e) => {
             result_bad(&mut out, "setup", &format!("cannot create a {} map: {e}", a.name()), 0, payload);
@@ -834,7 +842,7 @@ fn c13_job(payload: &[u8], io: &mut WorkerIo) -> Vec<u8> {
         // only_file = the other type, only_byte = sub case (0: A files opened as B; 1..3: A map with B's htx/key/val)
         let b = KtId::from_u8(only_file);
         let sub = only_byte as usize;
-        let img_b = match sample_image(b, &dir) {
+        let img_b = match sample_image(b, &dir, empty) {
             Ok(i) => i,
             Err(e) => {
                 result_bad(&mut out, "setup", &format!("cannot create a {} map: {e}", b.name()), evals, payload);
@@ -851,7 +859,7 @@ fn c13_job(payload: &[u8], io: &mut WorkerIo) -> Vec<u8> {
             match try_open_as(b, &img_a, &work) {
                 Ok(None) => {}
                 Ok(Some(what)) => {
-                    fail(&mut out, format!("sig-collision:{pairkey}:open-{}-as-{}", a.name(), b.name()), format!("files created for key type {} open as key type {} and answer: {what}", a.name(), b.name()), evals, payload.to_vec());
+                    fail(&mut out, format!("sig-collision:{pairkey}:open-{}-as-{}{}", a.name(), b.name(), if empty { ":empty-map" } else { "" }), format!("files created for key type {} ({}) open as key type {} and answer: {what}", a.name(), if empty { "never updated" } else { "one entry" }, b.name()), evals, payload.to_vec());
                     return out.0;
                 }
                 Err(e) => {
@@ -871,7 +879,7 @@ fn c13_job(payload: &[u8], io: &mut WorkerIo) -> Vec<u8> {
             match try_open_as(a, &mixed, &work) {
                 Ok(None) => {}
                 Ok(Some(what)) => {
-                    fail(&mut out, format!("sig-collision:{pairkey}:{}-map-with-{}-{f}", a.name(), b.name()), format!("a {} map whose .{f} file comes from a {} map opens as {} and answers: {what}", a.name(), b.name(), a.name()), evals, payload.to_vec());
+                    fail(&mut out, format!("sig-collision:{pairkey}:{}-map-with-{}-{f}{}", a.name(), b.name(), if empty { ":empty-map" } else { "" }), format!("a {} map ({}) whose .{f} file comes from a {} map opens as {} and answers: {what}", a.name(), if empty { "never updated" } else { "one entry" }, b.name(), a.name()), evals, payload.to_vec());
                     return out.0;
                 }
                 Err(e) => {
@@ -904,9 +912,9 @@ fn c13_job(payload: &[u8], io: &mut WorkerIo) -> Vec<u8> {
                         Ok(None) => {}
                         Ok(Some(what)) => {
                             let mut case = Buf::new();
-                            case.u8(1).u8(a as u8).u8(fi as u8).u32((pos * 256) as u32);
+                            case.u8(mode_raw).u8(a as u8).u8(fi as u8).u32((pos * 256) as u32);
                             let sig = if pos < 8 { "format signature" } else { "type signature" };
-                            fail(&mut out, format!("sig-mutation:{}:{f}:{sig}", a.name()).replace(' ', "-"), format!("{} map: byte {pos} of .{f} ({sig}) changed to 0x{newb:02x}: the open is accepted and answers: {what}", a.name()), evals, case.0);
+                            fail(&mut out, format!("sig-mutation:{}:{f}:{sig}{}", a.name(), if empty { ":empty-map" } else { "" }).replace(' ', "-"), format!("{} map: byte {pos} of .{f} ({sig}) changed to 0x{newb:02x}: the open is accepted and answers: {what}", a.name()), evals, case.0);
                             return out.0;
                         }
                         Err(e) => {
@@ -927,21 +935,23 @@ pub fn c13(tier: &str, seed: u64) -> i32 {
     ctx.pool.reinit(vec![]);
     ctx.pool.watchdog = std::time::Duration::from_secs(60);
     let mut jobs: Vec<Vec<u8>> = Vec::new();
-    for a in KtId::ALL {
-        for bt in KtId::ALL {
-            if bt == a {
-                continue;
+    for empty in [0u8, 2] {
+        for a in KtId::ALL {
+            for bt in KtId::ALL {
+                if bt == a {
+                    continue;
+                }
+                for sub in 0..4u32 {
+                    let mut b = Buf::new();
+                    b.u8(JOB_F_C13).u8(empty).u8(a as u8).u8(bt as u8).u32(sub);
+                    jobs.push(b.0);
+                }
             }
-            for sub in 0..4u32 {
+            for fi in 0..3u8 {
                 let mut b = Buf::new();
-                b.u8(JOB_F_C13).u8(0).u8(a as u8).u8(bt as u8).u32(sub);
+                b.u8(JOB_F_C13).u8(1 | empty).u8(a as u8).u8(fi).u32(u32::MAX);
                 jobs.push(b.0);
             }
-        }
-        for fi in 0..3u8 {
-            let mut b = Buf::new();
-            b.u8(JOB_F_C13).u8(1).u8(a as u8).u8(fi).u32(u32::MAX);
-            jobs.push(b.0);
         }
     }
     // a job stops at its first acceptance; run again past known findings is not needed: each
@@ -978,7 +988,7 @@ pub fn c13(tier: &str, seed: u64) -> i32 {
     eprintln!("[C13] open attempts: {evals}");
     ctx.run.set("evaluations", J::Int(evals as i64));
     ctx.run.set("distinct_nontrivial", J::Int(evals as i64));
-    ctx.run.set("rule", J::s("complete enumeration: (1) every ordered pair of the five key types: files created for A opened as B, and a directory of A files in which one of .htx/.key/.val comes from a B map opened as A; (2) per key type and per file every single-byte change (255 values) of each of the 16 leading signature bytes (5 x 3 x 16 x 255 = 61200). each attempt runs under catch_unwind: the open must fail (Err or panic) or at least no len/get/includes_key/iteration may answer Ok; afterwards the three files must be byte-identical. every case is distinct"));
+    ctx.run.set("rule", J::s("complete enumeration: (1) every ordered pair of the five key types: files created for A opened as B, and a directory of A files in which one of .htx/.key/.val comes from a B map opened as A; (2) per key type and per file every single-byte change (255 values) of each of the 16 leading signature bytes (5 x 3 x 16 x 255 = 61200); both families once on maps holding one entry and once on maps that were created and never updated (files of exactly header size). each attempt runs under catch_unwind: the open must fail (Err or panic) or at least no len/get/includes_key/iteration may answer Ok; afterwards the three files must be byte-identical. every case is distinct"));
     ctx.run.sample(J::s("string files opened as bytes"));
     ctx.run.sample(J::s("u64 map whose .val comes from an i64 map, opened as u64"));
     ctx.run.sample(J::s("bytes map, byte 6 of .key changed from 'K' to 'L'"));
@@ -1160,6 +1170,33 @@ fn c14_type<T: Kt>(dir: &std::path::Path, max_len: usize, evals: &mut u64) -> Re
                 return Err(("put_from_iter".into(), format!("{}: put_from_iter {}", kt.name(), r.failed().unwrap_or_default())));
             }
             check_state(&mut m, &keys, &model, kt, &format!("put_from_iter of keys #{b:?}"))?;
+            let _ = guard_plain(move || {
+                drop(m);
+                drop(db);
+            });
+        }
+        // long batches with repeated keys (the last pair of a key wins, whatever the batch length)
+        for blen in [33usize, 64, 200] {
+            *evals += 1;
+            let (db, mut m) = fresh(&mut model)?;
+            let mut pairs: Vec<(T, Vec<u8>)> = Vec::new();
+            for j in 0..blen {
+                let i = (j * 7 + j / 5) % 4;
+                let v = format!("v{j}").into_bytes();
+                model.insert(keys[i].clone(), v.clone());
+                pairs.push((T::from(&keys[i][..]), v));
+            }
+            let r = guard(|| m.put_from_iter(pairs.into_iter()));
+            if r != Out::Ok(()) {
+                return Err(("put_from_iter".into(), format!("{}: put_from_iter {}", kt.name(), r.failed().unwrap_or_default())));
+            }
+            check_state(&mut m, &keys, &model, kt, &format!("put_from_iter of {blen} pairs over 4 keys"))?;
+            // bulk_get of a long batch with repetition
+            let ks: Vec<&[u8]> = (0..blen).map(|j| &keys[(j * 3 + j / 7) % 4][..]).collect();
+            let exp: Vec<Option<Vec<u8>>> = (0..blen).map(|j| model.get(&keys[(j * 3 + j / 7) % 4]).cloned()).collect();
+            if guard(|| m.bulk_get(&ks)) != Out::Ok(exp) {
+                return Err(("bulk_get".into(), format!("{}: bulk_get of a batch of {blen} keys differs from the element-wise gets", kt.name())));
+            }
             let _ = guard_plain(move || {
                 drop(m);
                 drop(db);
